@@ -721,6 +721,9 @@ def run(ctx):
             "(T) rulesets written by the real trainer.py from --prefixcount lists standing for 14000-40000 passwords (thorough: up to 300000) in which "
             "most base structures are rarer than 1e-4, each edited with --copy and in place (bounds around the lengths present, terminal sets, "
             "regexes), half of them twice, loaded by the real guesser; the trainer's lines are also tested against the hypotheses of C20_filter by Coq; "
+            "the first list always holds a word ending in a letter whose upper() is longer than the letter (ss-ligature, fi-ligature, ...) beside a word of that "
+            "length ending in a capital, and is edited with min = max = that structure's length (R23; reported as case-expansion only when the "
+            "property's own product of the loaded groups explains the whole excess); "
             "(L) generated rulesets whose grammar.txt has 70 KiB-1.5 MiB (thorough: up to 4 MiB) and one of whose terminal files has more than 1 MiB, "
             "edited with --copy (bounds; a terminal set / regex about the label of the large file) and in place twice, judged line by line; "
             "with --copy: every file of the source hashed before/after, no file of the copy may be the same file (device, inode) as one of the source; "
